@@ -791,6 +791,17 @@ class Processor:
         for delete_nc in Processor._leaf_node_coords(delete_nodes):
             parent = delete_nc.parent
             parentref = delete_nc.parentref
+            if not isinstance(parent, (dict, list, CommentedSet, set)):
+                # Edge-case:  Attempt to delete from a document which is
+                # entirely one Scalar value OR user is deleting the entire
+                # document.  Refuse before anything else is deleted.
+                raise NoDocumentYAMLPathException(
+                    "Refusing to delete the entire document!  Ensure the"
+                    " source document is YAML, JSON, or compatible and the"
+                    " target nodes do not include the document root.",
+                    str(delete_nc.path)
+                )
+
             position = -1
             if isinstance(parent, list) and isinstance(parentref, int):
                 if parentref < 0:
@@ -849,16 +860,6 @@ class Processor:
                     del parent[parentref]
             elif isinstance(parent, (CommentedSet, set)):
                 parent.discard(parentref)
-            else:
-                # Edge-case:  Attempt to delete from a document which is
-                # entirely one Scalar value OR user is deleting the entire
-                # document.
-                raise NoDocumentYAMLPathException(
-                    "Refusing to delete the entire document!  Ensure the"
-                    " source document is YAML, JSON, or compatible and the"
-                    " target nodes do not include the document root.",
-                    str(delete_nc.path)
-                )
 
     # pylint: disable=locally-disabled,too-many-branches,too-many-locals
     def _get_nodes_by_path_segment(
